@@ -18,7 +18,12 @@ COMMON_ASSUMPTIONS = [
     "verified text = C emitted mechanically by /verif/tools/extract.py from /repo's working tree on this run; "
     "what extraction drops: constexpr/noexcept/inline/friend/explicit; namespaces; overload resolution (re-done from tags/argument types); "
     "templates (textually instantiated); access control and implicit this; const T& of small value types passed by value; "
-    "scoped-enum type safety; comments",
+    "scoped-enum type safety; comments.  Layout/spelling rewrites that ADD text: R18 a local iterator pointer tr into the transition vector is dereferenced as "
+    "*(begin + (tr - begin)) (same object checked by CBMC); R19 the two table element structs are padded to 64 bytes; R8v const Transition& / const TransitionType& "
+    "parameters passed by value; R11c a scalar constant used in a later constant's initialiser is replaced by its initialiser text",
+    "ghost code (lemma instantiations, cuts, loop contracts) is spliced from /verif by statement pattern / loop ordinal and must match exactly once; pointer and bounds checks are "
+    "not generated for expressions inside contract clauses and ghost code (their table reads are at indices the enclosing clause bounds); every check generated from the "
+    "extracted CODE is kept",
     "machine integers: int64 two's complement, int_fast8_t = signed char, int_fast16/32/64_t = long (glibc x86-64), size_t 64-bit",
     "specification arithmetic is 128-bit (__int128) wrap-around; its own overflow checks (class spec_arith) are not run: "
     "all spec magnitudes stay below 2^100 for int64 inputs",
@@ -161,7 +166,7 @@ def write_evidence(pid, spec, goals, run, tier, seed, t0, obs, proof_obs, bounde
         obligations=n_ob, discharged=n_dis,
         checker_cmd="goto-cc --function <harness> <unit>.c; goto-instrument --dfcc <harness> --enforce-contract <f> "
                     "--replace-call-with-contract <g>.. --apply-loop-contracts; cbmc --conversion-check --pointer-overflow-check "
-                    "--object-bits 12 --property <obligation> with back ends {cadical, cvc5 bit-vector, cvc5 --solve-bv-as-int=sum} raced",
+                    "--object-bits 8 (10, 12 when the goal has more objects) --property <obligation> with back ends {cadical, cvc5 bit-vector, cvc5 --solve-bv-as-int=sum} raced",
         trusted_base=sorted(trusted),
         functions_under_contract=enforced,
         goals=functions,
